@@ -11,7 +11,7 @@ import os
 import sys
 
 import drv
-from common import Counters, Failure, hyp_search, confirm, run_workers, load_replay
+from common import Counters, Failure, Skip, hyp_search, confirm, run_workers, load_replay
 
 _STATE = {}
 
@@ -54,6 +54,9 @@ def _worker(args):
         local.count(key, cls, sample=sample(case))
         try:
             evaluate(env, case)
+        except Skip as sk:
+            local.extra["skipped_unconstructible"] = local.extra.get("skipped_unconstructible", 0) + 1
+            local.extra.setdefault("skip_reason_example", str(sk)[:200])
         except Failure as f:
             if local.is_known(f.key):
                 local.known_hit(f.key, f.what)
